@@ -2116,3 +2116,199 @@ Section Hist.
     intros H L. destruct (verify_ver _ r (hist_Inv Verifying ops H) L) as (_ & _ & _ & _ & _ & _ & Ne & _). exact Ne.
   Qed.
 End Hist.
+
+(* ================================================================== generations only grow
+   (for ALL system states: no invariant is needed) *)
+Definition regs_eq (s s' : sys) : Prop := forall i, rs_reg (get s i) = rs_reg (get s' i).
+Definition gen_le (s s' : sys) : Prop := forall i, gen_of s i <= gen_of s' i.
+
+Lemma regs_eq_refl s : regs_eq s s.
+Proof. intros i; reflexivity. Qed.
+Lemma regs_eq_trans a b c : regs_eq a b -> regs_eq b c -> regs_eq a c.
+Proof. intros H1 H2 i. rewrite H1. apply H2. Qed.
+Lemma regs_eq_gen_le s s' : regs_eq s s' -> gen_le s s'.
+Proof. intros H i. unfold gen_of. rewrite H. auto. Qed.
+Lemma gen_le_refl s : gen_le s s.
+Proof. intros i; auto. Qed.
+Lemma gen_le_trans a b c : gen_le a b -> gen_le b c -> gen_le a c.
+Proof. intros H1 H2 i. specialize (H1 i). specialize (H2 i). lia. Qed.
+
+Lemma upd_regs_eq s r f : (forall x, rs_reg (f x) = rs_reg x) -> regs_eq s (upd s r f).
+Proof.
+  intros H i. rewrite get_upd. destruct (Nat.eqb i r && Nat.ltb r (length s)) eqn:E; auto.
+  apply andb_true_iff in E. destruct E as (E & _). apply Nat.eqb_eq in E. subst. rewrite H. reflexivity.
+Qed.
+
+Lemma set_regs_eq s r x : rs_reg x = rs_reg (get s r) -> regs_eq s (set s r x).
+Proof.
+  intros H i. rewrite get_set. destruct (Nat.eqb i r && Nat.ltb r (length s)) eqn:E; auto.
+  apply andb_true_iff in E. destruct E as (E & _). apply Nat.eqb_eq in E. subst. auto.
+Qed.
+
+Lemma refresh_ro_regs : forall fuel s r, regs_eq s (refresh_ro fuel s r).
+Proof.
+  induction fuel as [|f IH]; intros s r; cbn [refresh_ro]; [apply set_regs_eq; reflexivity|].
+  destruct (rs_flavour (get s r)); [|apply set_regs_eq; reflexivity].
+  apply (fold_left_inv (fun a => regs_eq s a)); [apply set_regs_eq; reflexivity|].
+  intros a b Ha _. eapply regs_eq_trans; eauto.
+Qed.
+
+Lemma lookup_changed_regs b s r : regs_eq s (lookup_changed b s r).
+Proof.
+  unfold lookup_changed. destruct (rs_flavour (get s r)); [apply set_regs_eq; reflexivity|].
+  eapply regs_eq_trans; [apply (refresh_ro_regs 0 s r)|]. apply set_regs_eq. reflexivity.
+Qed.
+
+Lemma bump_gen_le s r : gen_le s (upd s r bump).
+Proof.
+  intros i. unfold gen_of. rewrite get_upd. destruct (Nat.eqb i r && Nat.ltb r (length s)) eqn:E; auto.
+  apply andb_true_iff in E. destruct E as (E & _). apply Nat.eqb_eq in E. subst. cbn. lia.
+Qed.
+
+Lemma sub_changed_gen_le : forall fuel s r, gen_le s (sub_changed fuel s r).
+Proof.
+  assert (V : forall s r, gen_le s (lookup_changed false (upd s r bump) r)).
+  { intros s r. eapply gen_le_trans; [apply bump_gen_le|]. apply regs_eq_gen_le, lookup_changed_regs. }
+  induction fuel as [|f IH]; intros s r; cbn [sub_changed]; auto.
+  destruct (rs_flavour (get (lookup_changed false (upd s r bump) r) r)); auto.
+  apply (fold_left_inv (fun a => gen_le s a)); auto.
+  intros a b Ha _. eapply gen_le_trans; eauto.
+Qed.
+
+Lemma after_bump_gen_le s r : gen_le s (after_bump s r).
+Proof.
+  unfold after_bump.
+  assert (V : gen_le s (lookup_changed false s r)) by apply regs_eq_gen_le, lookup_changed_regs.
+  destruct (rs_flavour (get (lookup_changed false s r) r)); auto.
+  apply (fold_left_inv (fun a => gen_le s a)); auto.
+  intros a b Ha _. eapply gen_le_trans; eauto. apply sub_changed_gen_le.
+Qed.
+
+(* the common tail of _setBases *)
+Lemma set_bases_tail_gen (s s1 : sys) r bs : regs_eq s s1 -> length s1 = length s ->
+  let s' := after_bump (upd (refresh_ro (length s)
+                               (upd s1 r (fun y => mkRS (rs_reg y) (rs_caches y) bs (rs_ro y) (rs_subs y) (rs_vro y)
+                                                        (rs_vgen y) (rs_flavour y))) r) r bump) r in
+  gen_le s s' /\ (r < length s -> gen_of s r < gen_of s' r).
+Proof.
+  intros R1 L1 s'.
+  set (s2 := upd s1 r _) in *. set (s3 := refresh_ro (length s) s2 r) in *.
+  assert (R3 : regs_eq s s3).
+  { eapply regs_eq_trans; [exact R1|]. eapply regs_eq_trans; [|apply refresh_ro_regs].
+    apply upd_regs_eq. reflexivity. }
+  assert (L3 : length s3 = length s).
+  { unfold s3. destruct (graph_eq_refl s2) as (_ & _).
+    assert (forall f (t : sys) x, length (refresh_ro f t x) = length t) as RL.
+    { induction f as [|f IH]; intros t x; cbn [refresh_ro]; [apply set_length|].
+      destruct (rs_flavour (get t x)); [|apply set_length].
+      apply (fold_left_inv (fun a => length a = length t)); [apply set_length|].
+      intros a b Ha _. rewrite IH; auto. }
+    rewrite RL. unfold s2. rewrite upd_length. auto. }
+  split.
+  - eapply gen_le_trans; [apply regs_eq_gen_le, R3|]. eapply gen_le_trans; [apply bump_gen_le|].
+    apply after_bump_gen_le.
+  - intros Lr. pose proof (after_bump_gen_le (upd s3 r bump) r r) as M. fold s' in M.
+    unfold gen_of in *. rewrite get_upd_same in M by lia. cbn in M. rewrite <- R3 in M. lia.
+Qed.
+
+Lemma set_bases_gen s r bs :
+  gen_le s (set_bases s r bs) /\ (r < length s -> gen_of s r < gen_of (set_bases s r bs) r).
+Proof.
+  unfold set_bases. cbv zeta. apply set_bases_tail_gen.
+  - destruct (rs_flavour (get s r)); [|apply regs_eq_refl].
+    apply (fold_left_inv (fun a => regs_eq s a)).
+    + apply (fold_left_inv (fun a => regs_eq s a)); [apply regs_eq_refl|].
+      intros a b Ha _. destruct (mem b bs); auto. eapply regs_eq_trans; eauto. apply upd_regs_eq. reflexivity.
+    + intros a b Ha _. destruct (mem b (rs_bases (get s r))); auto.
+      eapply regs_eq_trans; eauto. apply upd_regs_eq. reflexivity.
+  - destruct (rs_flavour (get s r)); auto.
+    apply (fold_left_inv (fun a => length a = length s)).
+    + apply (fold_left_inv (fun a => length a = length s)); auto.
+      intros a b Ha _. destruct (mem b bs); auto. rewrite upd_length; auto.
+    + intros a b Ha _. destruct (mem b (rs_bases (get s r))); auto. rewrite upd_length; auto.
+Qed.
+
+Lemma setreg_gen s r g' : generation (rs_reg (get s r)) <= generation g' ->
+  let s' := after_bump (set s r (mkRS g' (rs_caches (get s r)) (rs_bases (get s r)) (rs_ro (get s r))
+                                      (rs_subs (get s r)) (rs_vro (get s r)) (rs_vgen (get s r))
+                                      (rs_flavour (get s r)))) r in
+  gen_le s s' /\ (r < length s -> generation g' <= gen_of s' r).
+Proof.
+  intros G s'. set (s4 := set s r _) in *.
+  assert (M4 : gen_le s s4).
+  { intros i. unfold gen_of, s4. rewrite get_set. destruct (Nat.eqb i r && Nat.ltb r (length s)) eqn:E; auto.
+    apply andb_true_iff in E. destruct E as (E & _). apply Nat.eqb_eq in E. subst. cbn. auto. }
+  split.
+  - eapply gen_le_trans; [exact M4|]. apply after_bump_gen_le.
+  - intros Lr. pose proof (after_bump_gen_le s4 r r) as M. fold s' in M.
+    unfold gen_of in *. unfold s4 in M at 1. rewrite get_set_same in M by auto. cbn in M. auto.
+Qed.
+
+Lemma mutate_gen s r f : (forall g, generation g <= generation (f g)) ->
+  gen_le s (mutate s r f) /\ (r < length s -> changed_gen s r f = Some r -> gen_of s r < gen_of (mutate s r f) r).
+Proof.
+  intros Mf. unfold mutate, changed_gen.
+  destruct (Nat.eqb (generation (f (rs_reg (get s r)))) (generation (rs_reg (get s r)))) eqn:E.
+  - split; [apply gen_le_refl|]. discriminate.
+  - apply Nat.eqb_neq in E. destruct (setreg_gen s r (f (rs_reg (get s r))) (Mf _)) as (M & S).
+    split; auto. intros Lr _. specialize (S Lr). specialize (Mf (rs_reg (get s r))). unfold gen_of in *. lia.
+Qed.
+
+Lemma new_reg_gen s fl bs : gen_le s (new_reg s fl bs).
+Proof.
+  unfold new_reg. eapply gen_le_trans; [|apply set_bases_gen].
+  intros i. unfold gen_of. rewrite get_app_cases. destruct (Nat.ltb i (length s)) eqn:L; auto.
+  apply Nat.ltb_ge in L. rewrite get_oob by auto. cbn. lia.
+Qed.
+
+Lemma verify_regs s r : regs_eq s (verify s r).
+Proof.
+  unfold verify. destruct (rs_flavour (get s r)); [apply regs_eq_refl|].
+  destruct (lspec_eqb _ _); [apply regs_eq_refl | apply lookup_changed_regs].
+Qed.
+
+Lemma with_lookup_gen_le W {A} s r (f : _ -> _ -> _ -> caches -> caches * A) :
+  gen_le s (fst (with_lookup W s r f)).
+Proof.
+  destruct (with_lookup_fst W s r f) as (c' & ->). apply regs_eq_gen_le.
+  eapply regs_eq_trans; [apply verify_regs|]. apply upd_regs_eq. reflexivity.
+Qed.
+
+(* every operation: no generation ever decreases, and the registry the operation changes
+   ([bump_target]) gets a strictly larger one — rebuild() included *)
+Lemma step_gen W call fl s o : wf_op fl (length s) o = true ->
+  gen_le s (fst (step W call s o)) /\
+  (forall m, bump_target W s o = Some m -> gen_of s m < gen_of (fst (step W call s o)) m).
+Proof.
+  intros Wf.
+  assert (MU : forall r f, Nat.ltb r (length s) = true -> (forall g, generation g <= generation (f g)) ->
+                           gen_le s (mutate s r f) /\
+                           (forall m, changed_gen s r f = Some m -> gen_of s m < gen_of (mutate s r f) m)).
+  { intros r f Lr Mf. apply Nat.ltb_lt in Lr. destruct (mutate_gen s r f Mf) as (M & S). split; auto.
+    intros m Hm. assert (m = r).
+    { unfold changed_gen in Hm. destruct (Nat.eqb _ _) in Hm; inversion Hm; auto. }
+    subst m. auto. }
+  destruct o; cbn [step wf_op fst bump_target] in *; try rewrite fst_let;
+    try (split; [first [apply with_lookup_gen_le | apply gen_le_refl]|discriminate]; fail).
+  - split; [apply new_reg_gen|discriminate].
+  - apply andb_true_iff in Wf. destruct Wf as (Lr & _). apply Nat.ltb_lt in Lr.
+    destruct (set_bases_gen s r bs) as (M & S). split; auto. intros m Hm. inversion Hm; subst. auto.
+  - apply MU; auto. intros; apply register_gen.
+  - apply MU; auto. intros; apply unregister_gen.
+  - apply MU; auto. intros; apply subscribe_gen.
+  - apply MU; auto. intros; apply unsubscribe_gen.
+  - apply Nat.ltb_lt in Wf. pose proof (rebuild_gen W (rs_reg (get s r))) as G.
+    destruct (setreg_gen s r (rebuild W (rs_reg (get s r)))) as (M & S); [lia|]. split; auto.
+    intros m Hm. inversion Hm; subst. specialize (S Wf). unfold gen_of in *. lia.
+Qed.
+
+Lemma generations_strictly_increase_hist W call fl ops o : wf_hist fl 0 (ops ++ [o]) = true ->
+  (forall i, generation (rs_reg (get (final W call [] ops) i)) <=
+             generation (rs_reg (get (final W call [] (ops ++ [o])) i))) /\
+  (forall m, bump_target W (final W call [] ops) o = Some m ->
+             generation (rs_reg (get (final W call [] ops) m)) <
+             generation (rs_reg (get (final W call [] (ops ++ [o])) m))).
+Proof.
+  intros H. rewrite final_app. destruct (wf_hist_app W call fl ops [] o (Inv_nil fl) H) as (_ & Wo).
+  apply (step_gen W call fl); auto.
+Qed.
